@@ -262,4 +262,35 @@ theorem field_array_items (fs efs : List (String × Msg)) (n : String)
             · obtain ⟨fs3, e3, e4⟩ := read_comp_names efs b2 x r2 h5
               exact ⟨fs3, e3, e4⟩
 
+/-- a component-valued field of a parsed component keeps its template's field names -/
+theorem field_comp_named (fs efs : List (String × Msg)) (n : String)
+    (hf : lookupField fs n = some (.comp efs))
+    (b : Bytes) (m : Msg) (h : readAll (.comp fs) b = .ok m)
+    (fs' : List (String × Msg)) (hc : castComp m = .ok fs') (v : Msg)
+    (hv : field fs' n = .ok v) : Named v (efs.map Prod.fst) := by
+  unfold readAll at h
+  cases hr : read (.comp fs) b with
+  | err e => rw [hr] at h; cases h
+  | panic p => rw [hr] at h; cases h
+  | ok m' r =>
+    rw [hr] at h; injection h with h; subst h
+    simp only [read] at hr
+    cases hrf : readFields fs [] [] b with
+    | err e => rw [hrf] at hr; cases hr
+    | panic p => rw [hrf] at hr; cases hr
+    | ok fs'' r'' =>
+      rw [hrf] at hr; simp only [RR.bind_ok] at hr; injection hr with e1 e2; subst e1
+      simp only [castComp, unwrapVisit] at hc; injection hc with hc; subst hc
+      simp only [field] at hv
+      cases hl : lookupField fs'' n with
+      | none => rw [hl] at hv; simp at hv
+      | some v0 =>
+        rw [hl] at hv; injection hv with hv; subst hv
+        obtain ⟨t0, ht0, horig⟩ := readFields_origin fs [] [] b fs'' r'' hrf n v0 hl
+        rw [hf] at ht0; injection ht0 with ht0; subst ht0
+        rcases horig with hv | ⟨b', r', hv⟩
+        · subst hv; exact ⟨efs, by simp [unwrapVisit], rfl⟩
+        · obtain ⟨fs3, e3, e4⟩ := read_comp_names efs b' v0 r' hv
+          subst e3; exact ⟨fs3, by simp [unwrapVisit], e4⟩
+
 end Rdp.Global
